@@ -1,3 +1,193 @@
-pub(crate) fn run(_args: &engine::Args) -> i32 {
-    engine::machinery_failure("not implemented")
+//! `server_checks conformance` - binds the Raft harness's in-memory
+//! MirrorStorage to the real log storage (`ClusterStorage` over `ClusterLog`).
+//!
+//! If /verif/harness_raft/mirror_traces.json exists, every trace in it (a list
+//! of storage calls with the mirror's answers after each call) is replayed
+//! against the real storage on a scratch data directory and compared after
+//! every call. Otherwise all call sequences of length <= 4 over
+//! append(index 1..3, term 1..2) / commit(index 0..3) are generated and the
+//! real storage's answers are written, in the same format, to
+//! /verif/harness_server/real_storage_traces.json.
+//!
+//! Format: {"format":1,"traces":[{"calls":[
+//!   {"op":"append","index":1,"term":1,"data":7,"after":{"log_index":1,"log_term":1,"log_commit":0,
+//!        "logs":{"0":[[1,1,7]],"1":[[1,1,7]],"2":[[1,1,7]]}}},
+//!   {"op":"commit","index":1,"after":{...}} ]}]}
+//! "logs" maps from_index (decimal) to the list of [index, term, data] that
+//! logs(from_index) returns. `data` is a small integer; it is stored in the
+//! real log as the cluster action UserAdd{user: "u<data>"}.
+
+use crate::action::ClusterAction;
+use crate::action::user_add::UserAdd;
+use crate::raft::{Log, Storage};
+use crate::vh::world::{Server, Snapshot, rt_current};
+use engine::{Args, Scratch};
+use serde_json::{Value, json};
+use std::sync::Mutex;
+use std::sync::atomic::{AtomicU64, Ordering};
+
+const MIRROR_TRACES: &str = "/verif/harness_raft/mirror_traces.json";
+const REAL_TRACES: &str = "/verif/harness_server/real_storage_traces.json";
+
+#[derive(Clone, Debug)]
+enum Call {
+    Append { index: u64, term: u64, data: u64 },
+    Commit { index: u64 },
+}
+
+fn action_of(data: u64) -> ClusterAction {
+    UserAdd { user: format!("u{data}"), password: vec![1; 32], salt: vec![2; 16] }.into()
+}
+
+fn data_of(a: &ClusterAction) -> Value {
+    match a {
+        ClusterAction::UserAdd(u) => u.user.strip_prefix('u').and_then(|s| s.parse::<u64>().ok()).map(|d| json!(d)).unwrap_or(json!(u.user)),
+        _ => json!("?"),
+    }
+}
+
+fn parse_call(v: &Value) -> Option<Call> {
+    match v["op"].as_str()? {
+        "append" => Some(Call::Append { index: v["index"].as_u64()?, term: v["term"].as_u64()?, data: v["data"].as_u64().unwrap_or(0) }),
+        "commit" => Some(Call::Commit { index: v["index"].as_u64()? }),
+        _ => None,
+    }
+}
+
+fn call_json(c: &Call) -> Value {
+    match c {
+        Call::Append { index, term, data } => json!({"op": "append", "index": index, "term": term, "data": data}),
+        Call::Commit { index } => json!({"op": "commit", "index": index}),
+    }
+}
+
+/// Runs the calls against a real storage on a restored base directory; returns the answers after every call.
+fn real_answers(base: &Snapshot, scratch: &Scratch, calls: &[Call], froms: &[Vec<u64>]) -> Result<Vec<Value>, String> {
+    let root = scratch.path("w");
+    base.restore(&root);
+    let data = format!("{root}/a/b/data");
+    let rt = rt_current();
+    let r = rt.block_on(async {
+        let server = Server::start_opts(&data, false).await?;
+        let mut out = vec![];
+        for (n, c) in calls.iter().enumerate() {
+            let mut raft = server.cluster.raft.write().await;
+            match c {
+                Call::Append { index, term, data } => raft.storage.append(Log { db_id: None, index: *index, term: *term, data: action_of(*data) }, None).await.map_err(|e| format!("append: {}", e.description))?,
+                Call::Commit { index } => raft.storage.commit(*index).await.map_err(|e| format!("commit: {}", e.description))?,
+            }
+            let mut logs = serde_json::Map::new();
+            // which from_index values to ask for: the ones the trace lists, else 0..=count+1
+            let count = raft.storage.logs(0).await.map_err(|e| format!("logs: {}", e.description))?.len() as u64;
+            let wanted: Vec<u64> = if froms.get(n).map(|f| !f.is_empty()).unwrap_or(false) { froms[n].clone() } else { (0..=count + 1).collect() };
+            for from in wanted {
+                let l = raft.storage.logs(from).await.map_err(|e| format!("logs({from}): {}", e.description))?;
+                logs.insert(from.to_string(), Value::Array(l.iter().map(|x| json!([x.index, x.term, data_of(&x.data)])).collect()));
+            }
+            out.push(json!({"log_index": raft.storage.log_index(), "log_term": raft.storage.log_term(), "log_commit": raft.storage.log_commit(), "logs": Value::Object(logs)}));
+            drop(raft);
+            tokio::task::yield_now().await;
+        }
+        server.stop();
+        Ok(out)
+    });
+    drop(rt);
+    r
+}
+
+fn generated() -> Vec<Vec<Call>> {
+    let mut alphabet = vec![];
+    for index in 1..=3u64 {
+        for term in 1..=2u64 {
+            alphabet.push(Call::Append { index, term, data: index * 10 + term });
+        }
+    }
+    for index in 0..=3u64 {
+        alphabet.push(Call::Commit { index });
+    }
+    let mut out: Vec<Vec<Call>> = vec![];
+    let mut last: Vec<Vec<Call>> = vec![vec![]];
+    for _ in 0..4 {
+        let mut next = vec![];
+        for t in &last {
+            for c in &alphabet {
+                let mut n = t.clone();
+                n.push(c.clone());
+                next.push(n);
+            }
+        }
+        out.extend(next.iter().cloned());
+        last = next;
+    }
+    out
+}
+
+pub(crate) fn run(args: &Args) -> i32 {
+    // base directory with the admin user already created (PBKDF2 once)
+    let scratch = Scratch::new("conf");
+    let root = scratch.path("w");
+    {
+        let rt = rt_current();
+        rt.block_on(async {
+            let s = Server::start_opts(&format!("{root}/a/b/data"), false).await.unwrap_or_else(|e| engine::machinery_failure(&e));
+            s.stop();
+        });
+    }
+    let base = Snapshot::take(&root);
+    drop(scratch);
+    let w = engine::workers();
+    let scratches: Vec<Mutex<Scratch>> = (0..w).map(|_| Mutex::new(Scratch::new("conf"))).collect();
+
+    if let Ok(text) = std::fs::read_to_string(MIRROR_TRACES) {
+        let doc: Value = serde_json::from_str(&text).unwrap_or_else(|e| engine::machinery_failure(&format!("{MIRROR_TRACES}: {e}")));
+        let traces = doc["traces"].as_array().cloned().unwrap_or_else(|| engine::machinery_failure(&format!("{MIRROR_TRACES}: no \"traces\" array")));
+        let disagreements = Mutex::new(vec![]);
+        let calls_checked = AtomicU64::new(0);
+        engine::par_for(traces.len(), args.seed, |wi, i| {
+            let t = &traces[i];
+            let entries = t["calls"].as_array().cloned().unwrap_or_default();
+            let calls: Vec<Call> = entries.iter().map(|c| parse_call(c).unwrap_or_else(|| engine::machinery_failure(&format!("{MIRROR_TRACES}: trace {i}: bad call {c}")))).collect();
+            let froms: Vec<Vec<u64>> = entries.iter().map(|c| c["after"]["logs"].as_object().map(|o| o.keys().filter_map(|k| k.parse().ok()).collect()).unwrap_or_default()).collect();
+            let s = scratches[wi].lock().unwrap();
+            let real = real_answers(&base, &s, &calls, &froms).unwrap_or_else(|e| engine::machinery_failure(&format!("trace {i}: {e}")));
+            for (n, (c, r)) in entries.iter().zip(real.iter()).enumerate() {
+                calls_checked.fetch_add(1, Ordering::Relaxed);
+                let m = &c["after"];
+                for f in ["log_index", "log_term", "log_commit", "logs"] {
+                    if m.get(f).is_some() && m[f] != r[f] {
+                        disagreements.lock().unwrap().push(format!("trace {i} call {n} ({}): {f}: mirror {} real {}", call_json(&calls[n]), m[f], r[f]));
+                        return;
+                    }
+                }
+            }
+        });
+        let d = disagreements.into_inner().unwrap();
+        println!("conformance: {} mirror traces ({} calls) replayed against the real ClusterStorage/ClusterLog, {} disagreements", traces.len(), calls_checked.load(Ordering::Relaxed), d.len());
+        for x in d.iter().take(10) {
+            println!("DISAGREEMENT {x}");
+        }
+        return if d.is_empty() { 0 } else { 1 };
+    }
+
+    let traces = generated();
+    let results: Vec<Mutex<Option<Value>>> = (0..traces.len()).map(|_| Mutex::new(None)).collect();
+    engine::par_for(traces.len(), args.seed, |wi, i| {
+        let s = scratches[wi].lock().unwrap();
+        let real = real_answers(&base, &s, &traces[i], &[]).unwrap_or_else(|e| engine::machinery_failure(&format!("generated trace {i}: {e}")));
+        let calls: Vec<Value> = traces[i]
+            .iter()
+            .zip(real)
+            .map(|(c, a)| {
+                let mut j = call_json(c);
+                j["after"] = a;
+                j
+            })
+            .collect();
+        *results[i].lock().unwrap() = Some(json!({"calls": calls}));
+    });
+    let all: Vec<Value> = results.into_iter().map(|m| m.into_inner().unwrap().unwrap()).collect();
+    let doc = json!({"format": 1, "source": "real ClusterStorage over ClusterLog (agdb_server), answers after every call", "traces": all});
+    std::fs::write(REAL_TRACES, serde_json::to_string(&doc).unwrap()).unwrap_or_else(|e| engine::machinery_failure(&format!("{REAL_TRACES}: {e}")));
+    println!("conformance: {MIRROR_TRACES} not found; wrote the real storage's answers for {} generated traces (all call sequences of length <= 4) to {REAL_TRACES}", traces.len());
+    0
 }
